@@ -2,6 +2,10 @@
 // committed height queried by every route (GetBlockHash, GetBlockByHeight, GetBlockByHash, GetHeaderByHash, GetTransaction).
 //
 // Line:  Q <op>;<op>;…   b<n> block with n transfers | x<k> k empty blocks | d block repeating the last committed tx | r restart
+//
+//	| s<n> header sync: AddHeader of the next block's header (n transfers), all queries checked while the header is
+//	  ahead of the blocks, then the block itself is committed
+//
 // Output (compared with the Lean model, which also predicts the header-index window): see Driver/C40.lean.
 // Predicate: every route returns exactly the committed block / header / transaction (byte comparison) with the right height,
 // for every height, before and after each restart, whether or not the height is still inside the header index cache.
@@ -18,6 +22,7 @@ import (
 	"github.com/ontio/ontology/account"
 	"github.com/ontio/ontology/common"
 	"github.com/ontio/ontology/common/config"
+	"github.com/ontio/ontology/core/store/ledgerstore"
 	"github.com/ontio/ontology/core/types"
 	"verif/harness/internal/hx"
 	"verif/harness/internal/ledgerkit"
@@ -136,7 +141,55 @@ func (s *state) report(phase string, res *hx.Result) string {
 		res.Fail, res.Class = "chain queries disagree with the committed block ("+phase+"): "+detail, class
 	}
 	f, l, c := s.k.Store.VerifHeaderIndexWindow()
-	return fmt.Sprintf("w=%d,%d,%d ok=%d/%d tx=%d/%d", f, l, c, okH, len(s.blocks), okT, nT)
+	// the boundary height cur-MAX (oldest height of the live window; outside the window after a restart / a header sync)
+	bd := "-"
+	if cur := s.k.Ledger.GetCurrentBlockHeight(); cur >= ledgerstore.HEADER_INDEX_MAX_SIZE {
+		h := cur - ledgerstore.HEADER_INDEX_MAX_SIZE
+		r := s.blocks[h]
+		b, err := s.k.Ledger.GetBlockByHeight(h)
+		if s.k.Ledger.GetBlockHash(h) == r.hash && err == nil && b != nil && bytes.Equal(b.ToArray(), r.raw) {
+			bd = "ok"
+		} else {
+			bd = "bad"
+			if res.Fail == "" {
+				res.Fail, res.Class = fmt.Sprintf("boundary height %d (cur-MAX) not answered with the committed block (%s)", h, phase), "query-disagree:boundary:"+phase
+			}
+		}
+		if h >= f {
+			bd += "+cached"
+		}
+	}
+	return fmt.Sprintf("w=%d,%d,%d ok=%d/%d tx=%d/%d bd=%s", f, l, c, okH, len(s.blocks), okT, nT, bd)
+}
+
+const tplLen = 1990
+
+var (
+	tplDir  string
+	tplRecs []rec
+)
+
+func mustAtoi(s string) int {
+	n, err := strconv.Atoi(s)
+	must(err)
+	return n
+}
+
+func longTemplate() {
+	if tplDir != "" {
+		return
+	}
+	d := filepath.Join(base, "tpl-long")
+	k, err := ledgerkit.Open(d, book)
+	must(err)
+	s := &state{k: k, repeats: map[common.Uint256]uint32{}}
+	g := k.Genesis
+	s.blocks = append(s.blocks, rec{g.Hash(), g.ToArray(), g.Header.ToArray(), g.Transactions})
+	for i := 0; i < tplLen; i++ {
+		s.commit(nil)
+	}
+	must(k.Close())
+	tplDir, tplRecs = d, s.blocks
 }
 
 func newTxs(n int) []*types.Transaction {
@@ -159,16 +212,29 @@ func exec(line string) hx.Result {
 	lineNo++
 	dir := filepath.Join(base, fmt.Sprintf("l%d", lineNo))
 	defer os.RemoveAll(dir)
+	ops := strings.Split(f[1], ";")
+	// long chains: a closed ledger with tplLen empty blocks is built once per process and copied (same blocks as building them here)
+	skip := 0
+	if n, err := strconv.Atoi(strings.TrimPrefix(ops[0], "x")); err == nil && strings.HasPrefix(ops[0], "x") && n >= tplLen && n <= 5000 {
+		longTemplate()
+		must(ledgerkit.CopyDir(tplDir, dir))
+		skip = tplLen
+	}
 	k, err := ledgerkit.Open(dir, book)
 	must(err)
 	s := &state{k: k, repeats: map[common.Uint256]uint32{}}
 	defer func() { s.k.Close() }()
-	g := k.Genesis
-	s.blocks = append(s.blocks, rec{g.Hash(), g.ToArray(), g.Header.ToArray(), g.Transactions})
+	if skip > 0 {
+		s.blocks = append(s.blocks, tplRecs...)
+		ops[0] = fmt.Sprintf("x%d", mustAtoi(ops[0][1:])-skip)
+	} else {
+		g := k.Genesis
+		s.blocks = append(s.blocks, rec{g.Hash(), g.ToArray(), g.Header.ToArray(), g.Transactions})
+	}
 	res := hx.Result{Kind: "plain"}
 	var outs []string
-	restarts, maxTx, total := 0, 0, 0
-	for _, op := range strings.Split(f[1], ";") {
+	restarts, maxTx, total, syncs := 0, 0, 0, 0
+	for _, op := range ops {
 		switch {
 		case op == "r":
 			outs = append(outs, s.report("before-restart", &res))
@@ -185,6 +251,23 @@ func exec(line string) hx.Result {
 			} else {
 				s.commit(nil)
 			}
+		case strings.HasPrefix(op, "s"):
+			n, err := strconv.Atoi(op[1:])
+			if err != nil || n < 0 || n > 200 {
+				return hx.Result{Out: "bad-op"}
+			}
+			txs := newTxs(n)
+			blk, err := s.k.NextBlock(txs, 0)
+			must(err)
+			must(ledgerkit.SignWith(blk, book))
+			must(s.k.Store.AddHeader(blk.Header))
+			outs = append(outs, s.report("header-ahead", &res))
+			must(s.k.Add(blk))
+			s.blocks = append(s.blocks, rec{blk.Hash(), blk.ToArray(), blk.Header.ToArray(), txs})
+			if n > 0 {
+				s.lastTx = txs[n-1]
+			}
+			syncs++
 		case strings.HasPrefix(op, "b"):
 			n, err := strconv.Atoi(op[1:])
 			if err != nil || n < 0 || n > 200 {
@@ -211,6 +294,9 @@ func exec(line string) hx.Result {
 	if restarts > 0 && res.Kind == "plain" {
 		res.Kind = "restart"
 	}
+	if syncs > 0 {
+		res.Kind += "+hdrsync"
+	}
 	if fi, _, _ := s.k.Store.VerifHeaderIndexWindow(); fi > 0 {
 		res.Kind += "+evicted"
 	}
@@ -228,6 +314,8 @@ func gen(r *hx.Rand, tier string, i int) string {
 			ops = append(ops, "r")
 		case x < 24:
 			ops = append(ops, "d")
+		case x < 29:
+			ops = append(ops, fmt.Sprintf("s%d", r.Intn(3)))
 		case x < 34:
 			ops = append(ops, fmt.Sprintf("x%d", 1+r.Intn(12)))
 		case x < 40:
@@ -250,12 +338,14 @@ func main() {
 	}()
 	hx.Main(hx.Prop{
 		ID: "C40",
-		Rule: "chains of real solo-ledger blocks (0-40 native transfers each, runs of empty blocks, a block repeating an already committed tx), " +
+		Rule: "chains of real solo-ledger blocks (0-40 native transfers each, runs of empty blocks, a block repeating an already committed tx, header sync of the next header before its block), " +
 			"restarts (Close + reopen of the LevelDB directories) in the middle; after every restart and at the end EVERY height is queried by all five routes " +
-			"and compared byte-wise with what was committed; corpus chains cross HEADER_INDEX_MAX_SIZE so that evicted heights are queried. kinds: plain/restart/repeat(+evicted)",
+			"and compared byte-wise with what was committed; corpus chains cross HEADER_INDEX_MAX_SIZE so that evicted heights are queried. the boundary height cur-MAX is reported separately (bd=). kinds: plain/restart/repeat(+hdrsync)(+evicted)",
 		Gen:  gen,
 		Exec: exec,
 		Corpus: []string{"Q b1", "Q r", "Q b0;r;b0", "Q b3;b0;b2;r;b1;r;r;b4", "Q b2;d;r;d;b1", "Q x2001;b2;r;b1;x3;r", "Q x1998;r;b1;b1;b1;r;b2",
+			// boundary height cur-MAX on chains of MAX, MAX+1, MAX+5 blocks: after a restart, after a header sync, and both
+			"Q x1999;r", "Q x2000;r", "Q x2001;r;b1", "Q x2005;r;s1;r", "Q x2000;s1", "Q x2001;s0;r", "Q x2005;s2;b1;s0", "Q b1;s2;r;s0",
 			"Q b40;b1;r;b40"},
 		N: map[string]int{"quick": 40, "thorough": 600},
 	})
